@@ -32,6 +32,7 @@ struct Opts {
 
 struct Out {
     idx: usize,
+    project: serde_json::Value,
     cases: String,
     imp: String,
     oracle: serde_json::Value,
@@ -158,19 +159,125 @@ fn utf16_slice(line: &str, a: u32, b: u32) -> Option<String> {
     Some(String::from_utf16_lossy(&u[a as usize..b as usize]))
 }
 
-fn process(pr: &Proj, idx: usize, outdir: &str, opts: &Opts, rng: &mut Rng) -> Out {
+/// One project, and after every step of its edit history (update_source + analyse, what the language server does on
+/// didChange) the same evaluation again, compared with freshly loaded projects holding the same texts.
+fn process(pr: &Proj, idx: usize, outdir: &str, opts: &Opts, rng: &mut Rng) -> Vec<Out> {
     let dir = format!("{outdir}/proj/{idx}");
-    let is_libs = pr.kind == "libs";
     let mut p = load_project(pr, &dir);
     let diags = p.analyse();
+    let mut st0 = pr.clone();
+    st0.history.clear();
+    let mut outs = vec![evaluate(&p, &diags, &st0, pr, idx * 64, &dir, opts, rng)];
+    let mut cur = st0.clone();
+    for (k, step) in pr.history.iter().enumerate().take(60) {
+        for (name, text) in step {
+            let path = PathBuf::from(format!("{dir}/{name}"));
+            match cur.files.iter_mut().find(|f| &f.name == name) {
+                Some(f) => f.text = text.clone(),
+                None => continue,
+            }
+            match p.get_source(&path) {
+                Some(src) => {
+                    src.change(None, text);
+                    p.update_source(&src);
+                }
+                None => p.update_source(&Source::inline(&path, text)),
+            }
+        }
+        let diags = p.analyse();
+        let mut replay = pr.clone();
+        replay.history.truncate(k + 1);
+        let mut state = cur.clone();
+        state.name = format!("{}@step{}", pr.name, k + 1);
+        state.kind = format!("{}+history", pr.kind);
+        let mut o = evaluate(&p, &diags, &state, &replay, idx * 64 + k + 1, &dir, opts, rng);
+        // The same texts in a fresh project must give the same answers.  Only for states without duplicate design
+        // units: which of two duplicates is analysed legitimately depends on the order in which files were added
+        // (per unit), so there the incremental and the fresh project may differ.
+        let is_dup = |ds: &[vhdl_lang::Diagnostic]| ds.iter().any(|d| format!("{:?}", d.code) == "Duplicate");
+        let mut fresh_state = "skipped: duplicate design units";
+        if !is_dup(&diags) {
+            let fdir = format!("{dir}_fresh");
+            let mut fresh = load_project(&cur, &fdir);
+            let fdiags = fresh.analyse();
+            if !is_dup(&fdiags) {
+                fresh_state = "equal";
+                let sig = signature(&p, &dir, &cur);
+                let fsig = signature(&fresh, &fdir, &cur);
+                if let (Some(d), Some(obj)) = (first_difference(&sig, &fsig), o.oracle.as_object_mut()) {
+                    fresh_state = "different";
+                    obj.insert("fresh_difference".into(), serde_json::json!(d));
+                }
+            }
+        }
+        if let Some(obj) = o.oracle.as_object_mut() {
+            obj.insert("fresh_comparison".into(), serde_json::json!(fresh_state));
+        }
+        outs.push(o);
+    }
+    outs
+}
+
+/// Canonical answers of a project, independent of entity ids and directory: every cursor of every own file ->
+/// position + entity, and the reference list of the declaration of every entity a cursor resolved to.
+fn signature(p: &Project, dir: &str, pr: &Proj) -> BTreeMap<String, String> {
+    let mut sig = BTreeMap::new();
+    let show = |pos: &SrcPos| format!("{}:{:?}", pos.source.file_name().file_name().unwrap().to_string_lossy(), span_of(pos));
+    let ent_key = |e: EntRef<'_>| format!("{}@{}", e.describe(), e.decl_pos().map(|d| show(d)).unwrap_or_default());
+    let mut decls: BTreeMap<String, EntRef<'_>> = BTreeMap::new();
+    for f in &pr.files {
+        let path = PathBuf::from(format!("{dir}/{}", f.name));
+        let Some(src) = p.get_source(&path) else { continue };
+        let lines: Vec<String> = {
+            let c = src.contents();
+            (0..c.num_lines()).map(|i| c.get_line(i).unwrap().to_string()).collect()
+        };
+        for (li, l) in lines.iter().enumerate() {
+            let n = l.trim_end_matches(['\n', '\r']).encode_utf16().count() as u32;
+            for c in 0..=n + 1 {
+                if let Some((pos, ent)) = p.item_at_cursor(&src, Position::new(li as u32, c)) {
+                    sig.insert(format!("C {} {} {}", f.name, li, c), format!("{} {}", show(&pos), ent_key(ent)));
+                    let d = ent.declaration();
+                    decls.insert(ent_key(d), d);
+                }
+            }
+        }
+    }
+    let own: HashSet<String> = pr.files.iter().map(|f| f.name.clone()).collect();
+    for (k, d) in decls {
+        let mut refs: Vec<String> = p.find_all_references(d).iter().filter(|r| own.contains(&r.source.file_name().file_name().unwrap().to_string_lossy().to_string())).map(|r| show(r)).collect();
+        refs.sort();
+        sig.insert(format!("A {k}"), refs.join(" "));
+    }
+    sig
+}
+
+fn first_difference(a: &BTreeMap<String, String>, b: &BTreeMap<String, String>) -> Option<String> {
+    for (k, v) in a {
+        match b.get(k) {
+            Some(w) if w == v => {}
+            Some(w) => return Some(format!("{k}: after the edit history `{v}`, fresh project `{w}`")),
+            None => return Some(format!("{k}: after the edit history `{v}`, fresh project: nothing")),
+        }
+    }
+    for (k, w) in b {
+        if !a.contains_key(k) {
+            return Some(format!("{k}: after the edit history: nothing, fresh project `{w}`"));
+        }
+    }
+    None
+}
+
+fn evaluate(p: &Project, diags: &[vhdl_lang::Diagnostic], pr: &Proj, replay: &Proj, idx: usize, dir: &str, opts: &Opts, rng: &mut Rng) -> Out {
+    let is_libs = pr.kind == "libs";
     let mut files = Files::default();
     // recorded files: the project's own files; for the library project every file of the bundled libraries
     let own: HashSet<PathBuf> = pr.files.iter().map(|f| PathBuf::from(format!("{dir}/{}", f.name))).collect();
     let want = |f: &Path| if is_libs { true } else { own.contains(f) };
-    let fo = match extract(&p, &mut files, &want) {
+    let fo = match extract(p, &mut files, &want) {
         Ok(fo) => fo,
         Err(e) => {
-            return Out { idx, cases: String::new(), imp: String::new(), oracle: serde_json::json!({"idx": idx, "name": pr.name, "kind": pr.kind, "extract_error": e}) };
+            return Out { idx, cases: String::new(), imp: String::new(), project: replay.to_json(), oracle: serde_json::json!({"idx": idx, "name": pr.name, "kind": pr.kind, "extract_error": e}) };
         }
     };
     if std::env::var("C08_DEBUG").is_ok() {
@@ -255,6 +362,8 @@ fn process(pr: &Proj, idx: usize, outdir: &str, opts: &Opts, rng: &mut Rng) -> O
     let mut iac_cache: HashMap<(u32, u32, u32), Option<(SrcPos, EntRef<'_>)>> = HashMap::new();
     let mut hits: BTreeMap<(u32, Span, usize), (SrcPos, EntRef<'_>)> = BTreeMap::new();
     let mut n_hit_cursors = 0usize;
+    let mut nv0 = 0usize;
+    let mut viol0: Vec<serde_json::Value> = vec![];
     for &(f, l, c) in &cursors {
         let src = &srcs[&f];
         let r = p.item_at_cursor(src, Position::new(l, c));
@@ -262,6 +371,16 @@ fn process(pr: &Proj, idx: usize, outdir: &str, opts: &Opts, rng: &mut Rng) -> O
             n_hit_cursors += 1;
             add_ent(&mut ents, ent);
             let pf = files.id(pos.source.file_name());
+            // clause 0: the position a cursor query answers with lies in the queried file and contains the cursor
+            let sp = span_of(pos);
+            if pf != f || !((sp.0, sp.1) <= (l, c) && (l, c) <= (sp.2, sp.3)) {
+                nv0 += 1;
+                if viol0.len() < 3 {
+                    viol0.push(serde_json::json!({"clause": 0, "file": files.names[f as usize].file_name().unwrap().to_string_lossy(), "cursor": [l, c],
+                        "pos": [sp.0, sp.1, sp.2, sp.3], "position_file": pos.source.file_name().file_name().unwrap().to_string_lossy(), "cursor_resolves_to": ent.describe(),
+                        "text": "the position returned for a cursor query is not in the queried file or does not contain the cursor"}));
+                }
+            }
             hits.entry((pf, span_of(pos), ent.id().to_raw())).or_insert((pos.clone(), *ent));
         }
         iac_cache.insert((f, l, c), r);
@@ -316,6 +435,24 @@ fn process(pr: &Proj, idx: usize, outdir: &str, opts: &Opts, rng: &mut Rng) -> O
     let mut refs_cache: HashMap<usize, Vec<SrcPos>> = HashMap::new();
     for (id, e) in qents.iter() {
         refs_cache.insert(*id, p.find_all_references(e));
+    }
+    let multi_lib = rec_sorted.iter().any(|f| srcs.get(f).map(|s| p.library_mapping_of(s).len() >= 2).unwrap_or(false));
+    let mut ndup = 0usize;
+    if !multi_lib {
+        for (id, refs) in refs_cache.iter() {
+            let mut seen = HashSet::new();
+            for r in refs {
+                if !seen.insert((r.source.file_name().to_path_buf(), span_of(r))) {
+                    ndup += 1;
+                    if viol0.len() < 5 {
+                        let sp = span_of(r);
+                        viol0.push(serde_json::json!({"clause": 4, "file": r.source.file_name().file_name().unwrap().to_string_lossy(), "pos": [sp.0, sp.1, sp.2, sp.3],
+                            "entity": qents[id].describe(), "text": "find_all_references returns the same position twice"}));
+                    }
+                    break;
+                }
+            }
+        }
     }
     // clause 1
     for ((pf, sp, _), (pos, ent)) in hits.iter() {
@@ -564,11 +701,11 @@ fn process(pr: &Proj, idx: usize, outdir: &str, opts: &Opts, rng: &mut Rng) -> O
         "events": fo.evs.len(), "with_guards": with_guards, "ref_guards": ref_guards, "unresolved_refs": unresolved, "extraction_runs": fo.runs, "extraction_fallback": fo.fallback,
         "cursors": cursors.len(), "all_cursors": all_cursors, "cursor_hits": n_hit_cursors, "distinct_hits": hits.len(),
         "entities_queried": qents.len(), "reference_positions": n_ref_positions, "inside_cursors": n_inside_cursors,
-        "violations": {"clause1": nv[0], "clause2": nv[1], "clause3": nv[2]}, "clause2_homonym_copies": n_homonym,
-        "multi_library_files": rec_sorted.iter().filter(|f| srcs.get(f).map(|s| p.library_mapping_of(s).len() >= 2).unwrap_or(false)).count(), "violation_samples": viol,
+        "violations": {"clause0": nv0, "clause1": nv[0], "clause2": nv[1], "clause3": nv[2], "clause4": ndup}, "clause2_homonym_copies": n_homonym,
+        "multi_library_files": rec_sorted.iter().filter(|f| srcs.get(f).map(|s| p.library_mapping_of(s).len() >= 2).unwrap_or(false)).count(), "violation_samples": viol0.into_iter().chain(viol.into_iter()).collect::<Vec<_>>(),
         "unknown_entities": unknown_ents, "extraction_gap": gap, "rust_wf": wf, "decl_kinds": dkinds, "end_identifiers": end_idents,
     });
-    Out { idx, cases, imp, oracle }
+    Out { idx, cases, imp, oracle, project: replay.to_json() }
 }
 
 /// Independent (sort-based) evaluation of the forest's well-formedness; None = well formed.
@@ -645,7 +782,7 @@ fn rust_wf(fo: &Forest, ents: &HashMap<usize, EntRef<'_>>, files: &mut Files) ->
 
 fn libs_project() -> Proj {
     // no own files: the project consists of the bundled libraries (std, ieee)
-    Proj { name: "vhdl_libraries".into(), kind: "libs".into(), ieee: true, files: vec![] }
+    Proj { name: "vhdl_libraries".into(), kind: "libs".into(), ieee: true, files: vec![], history: vec![] }
 }
 
 fn main() {
@@ -654,9 +791,10 @@ fn main() {
     if args.len() >= 3 && args[1] == "show" {
         let v: serde_json::Value = serde_json::from_str(&std::fs::read_to_string(&args[2]).unwrap()).unwrap();
         let pr = Proj::from_json(v.get("project").unwrap_or(&v)).unwrap();
-        let out = process(&pr, 0, "/verif/.cache/run/C08/show", &Opts { thorough: false, replay: true }, &mut Rng::new(1));
-        print!("{}", out.cases.lines().filter(|l| !l.starts_with("Q ")).collect::<Vec<_>>().join("\n"));
-        println!("\n{}", serde_json::to_string_pretty(&out.oracle).unwrap());
+        for out in process(&pr, 0, "/verif/.cache/run/C08/show", &Opts { thorough: false, replay: true }, &mut Rng::new(1)) {
+            print!("{}", out.cases.lines().filter(|l| !l.starts_with("Q ")).collect::<Vec<_>>().join("\n"));
+            println!("\n{}", serde_json::to_string_pretty(&out.oracle).unwrap());
+        }
         return;
     }
     if args.len() >= 4 && args[1] == "gen" {
@@ -729,6 +867,15 @@ fn main() {
             }
         }
     }
+    if !replay {
+        // duplicate design units across files + edit histories
+        let mut rng = Rng::new(seed ^ 0x5eed_d0b1);
+        let nd = if thorough { 40 } else { 7 };
+        for k in 0..nd {
+            let mut r = rng.fork();
+            projects.push(gen_dup(&mut r, k));
+        }
+    }
     std::fs::create_dir_all(&outdir).unwrap();
     let next = AtomicUsize::new(0);
     let outs: Mutex<Vec<Out>> = Mutex::new(vec![]);
@@ -748,10 +895,10 @@ fn main() {
                     Ok(o) => o,
                     Err(e) => {
                         let msg = e.downcast_ref::<String>().cloned().or_else(|| e.downcast_ref::<&str>().map(|s| s.to_string())).unwrap_or_default();
-                        Out { idx: i, cases: String::new(), imp: String::new(), oracle: serde_json::json!({"idx": i, "name": pr.name, "kind": pr.kind, "panic": msg}) }
+                        vec![Out { idx: i * 64, cases: String::new(), imp: String::new(), project: pr.to_json(), oracle: serde_json::json!({"idx": i * 64, "name": pr.name, "kind": pr.kind, "panic": msg}) }]
                     }
                 };
-                outs.lock().unwrap().push(out);
+                outs.lock().unwrap().extend(out);
             });
         }
     });
@@ -766,7 +913,7 @@ fn main() {
         imp.push_str(&o.imp);
         oracle.push_str(&serde_json::to_string(&o.oracle).unwrap());
         oracle.push('\n');
-        pj.push_str(&serde_json::to_string(&projects[o.idx].to_json()).unwrap());
+        pj.push_str(&serde_json::to_string(&o.project).unwrap());
         pj.push('\n');
     }
     std::fs::write(format!("{outdir}/cases.txt"), cases).unwrap();
